@@ -101,7 +101,7 @@ func scan(md protoreflect.MessageDescriptor, b []byte, set map[string]bool, dept
 				}
 			}
 		case fd.Message() != nil:
-			if seen[num] > 1 && fd.ContainingOneof() == nil {
+			if seen[num] > 1 && realOneof(fd) == nil {
 				set["message-field-repeated(merge-required)"] = true
 			}
 			if typ == protowire.BytesType {
@@ -110,11 +110,19 @@ func scan(md protoreflect.MessageDescriptor, b []byte, set map[string]bool, dept
 				}
 			}
 		default:
-			if seen[num] > 1 && fd.ContainingOneof() == nil {
+			if seen[num] > 1 && realOneof(fd) == nil {
 				set["singular-scalar-repeated(last-wins)"] = true
 			}
 		}
 	}
+}
+
+// realOneof returns the containing oneof unless it is the synthetic one of a proto3 optional field.
+func realOneof(fd protoreflect.FieldDescriptor) protoreflect.OneofDescriptor {
+	if oo := fd.ContainingOneof(); oo != nil && !oo.IsSynthetic() {
+		return oo
+	}
+	return nil
 }
 
 func canonicalEntry(p []byte) bool {
